@@ -315,10 +315,19 @@ def run_tasks(ctx, tasks, procs=None):
         for i in range(len(tasks)):
             total.merge(_work(i))
         return total
+    from concurrent.futures import ProcessPoolExecutor, as_completed
+    from concurrent.futures.process import BrokenProcessPool
     mpctx = mp.get_context('fork')
-    with mpctx.Pool(procs) as pool:
-        for col in pool.imap_unordered(_work, range(len(tasks))):
-            total.merge(col)
+    with ProcessPoolExecutor(max_workers=procs, mp_context=mpctx) as ex:
+        futs = {ex.submit(_work, i): i for i in range(len(tasks))}
+        for f in as_completed(futs):
+            try:
+                total.merge(f.result())
+            except BrokenProcessPool:
+                total.errors.append(f"worker process died while running task {futs[f]} {tasks[futs[f]][1]} "
+                                    f"(killed by a signal - a crash inside the code under test?)")
+            except Exception:
+                total.errors.append(f"task {futs[f]}:\n" + traceback.format_exc())
     return total
 
 
